@@ -14,6 +14,10 @@
 //	wreload <w>     worker w processes its reload signal: clears its sampler cache
 //	peerset <n> / peersetfail   the peer source changes its answer, the callback has NOT run yet
 //	peercb          the registered peers callback runs
+//	peercb2 <n2>    two overlapping callbacks around a membership change: callback A reads the membership
+//	                and is parked inside GetPeers; the source changes to n2; callback B runs (started in a
+//	                goroutine, given 5 ms); A is released; both finish.  The code reads the list under the
+//	                factory mutex, so B cannot commit before A: model = peercb; peerset n2; peercb.
 //	reload <w> <env>  the real InMemCollector.reloadConfigs runs on a collector shell whose workers' reload
 //	                channels feed the simulated worker caches; in the middle of it (StressRelief.UpdateFromConfig)
 //	                worker w runs one loop iteration: handles its reload signal if it already has one, then makes
@@ -563,6 +567,17 @@ func (comp) Gen(r *kit.Rng, maxLen int, tier string) kit.Case {
 			}
 			continue
 		}
+		if r.Chance(4) {
+			// two callbacks overlapping around a membership change
+			if r.Chance(50) {
+				ops = append(ops, fmt.Sprintf("peers %d", []int{1, 2, 3, 4, 7, 10}[r.Intn(6)]))
+			}
+			ops = append(ops, fmt.Sprintf("peercb2 %d", []int{1, 2, 3, 4, 5, 7, 10, 100, 0}[r.Intn(9)]))
+			if r.Chance(50) {
+				ops = append(ops, get())
+			}
+			continue
+		}
 		if r.Chance(6) {
 			// a membership change whose callback is late: work happens in between
 			if r.Chance(88) {
@@ -651,20 +666,39 @@ func (comp) Gen(r *kit.Rng, maxLen int, tier string) kit.Case {
 // ---------------------------------------------------------------- runner
 
 type fakePeers struct {
+	mu        sync.Mutex
+	park      bool
+	parked    chan struct{}
+	release   chan struct{}
 	n         int
 	fail      bool
 	callbacks []func()
 }
 
 func (p *fakePeers) GetPeers() ([]string, error) {
-	if p.fail {
+	p.mu.Lock()
+	fail, n := p.fail, p.n
+	park := p.park
+	p.park = false
+	p.mu.Unlock()
+	if park {
+		// "park after snapshot": this caller has read the membership and is held before it returns
+		close(p.parked)
+		<-p.release
+	}
+	if fail {
 		return nil, errors.New("peer query failed")
 	}
-	out := make([]string, p.n)
+	out := make([]string, n)
 	for i := range out {
 		out[i] = fmt.Sprintf("http://peer%d:8081", i)
 	}
 	return out, nil
+}
+func (p *fakePeers) set(n int, fail bool) {
+	p.mu.Lock()
+	p.n, p.fail = n, fail
+	p.mu.Unlock()
 }
 func (p *fakePeers) GetInstanceID() (string, error)         { return "http://peer0:8081", nil }
 func (p *fakePeers) RegisterUpdatedPeersCallback(cb func()) { p.callbacks = append(p.callbacks, cb) }
@@ -863,14 +897,36 @@ func (r *runner) Do(op []string) (string, bool) {
 	switch op[0] {
 	case "peerset":
 		n, _ := strconv.Atoi(op[1])
-		r.peers.fail = false
-		r.peers.n = n
+		r.peers.set(n, false)
 		return r.tail(nil), true
 	case "peersetfail":
-		r.peers.fail = true
+		r.peers.set(0, true)
 		return r.tail(nil), true
 	case "peercb":
 		r.peers.fire()
+		return r.tail(nil), true
+	case "peercb2":
+		n2, _ := strconv.Atoi(op[1])
+		p := r.peers
+		p.mu.Lock()
+		p.park, p.parked, p.release = true, make(chan struct{}), make(chan struct{})
+		p.mu.Unlock()
+		doneA, doneB := make(chan struct{}), make(chan struct{})
+		go func() { defer close(doneA); p.fire() }()
+		select {
+		case <-p.parked:
+		case <-time.After(5 * time.Second):
+			return "callback-did-not-query-peers", true
+		}
+		p.set(n2, false)
+		go func() { defer close(doneB); p.fire() }()
+		select {
+		case <-doneB:
+		case <-time.After(5 * time.Millisecond): // B is waiting for the factory mutex
+		}
+		close(p.release)
+		<-doneA
+		<-doneB
 		return r.tail(nil), true
 	case "reload":
 		w, _ := strconv.Atoi(op[1])
